@@ -711,16 +711,25 @@ func run(env *simrt.Env, sci interface{}) {
 				size = s.spec.RBuf
 			}
 			buf := make([]byte, size)
+			reads := 0
 			for {
 				var n int
 				var from net.Addr
 				var err error
-				if nc, ok := s.pc.(net.Conn); ok && s.remote != "" {
-					// connected sockets are read with Read; the source is the peer by construction
+				reads++
+				if nc, ok := s.pc.(net.Conn); ok && s.remote != "" && (s.gi+reads)%2 == 0 {
+					// connected sockets are read with Read (the source is the peer by construction)
+					// and with ReadFrom in turn
 					n, err = nc.Read(buf)
 					from = nc.RemoteAddr()
 				} else {
 					n, from, err = s.pc.ReadFrom(buf)
+					if ua, ok := from.(*net.UDPAddr); ok && err == nil {
+						// the address handed out belongs to the caller, who may do with it what it likes
+						from = &net.UDPAddr{IP: ua.IP, Port: ua.Port, Zone: ua.Zone}
+						ua.Port = ua.Port%60000 + 1
+						ua.Zone = "scribbled"
+					}
 				}
 				short := errors.Is(err, io.ErrShortBuffer)
 				if err != nil && !short {
